@@ -5,7 +5,7 @@ from . import rule, info
 from ..program import AnalysisError, src, norm, ClassInfo
 from ..affine import linear, NotAffine
 from ..tables import MISS
-from ..util import (is_name, calls_in, callee_qual, deref, ancestors, evaluator_calls, stmt_of, parent,
+from ..util import (locals_from_attrs, is_name, calls_in, callee_qual, deref, ancestors, evaluator_calls, stmt_of, parent,
                     handler_outcomes, completes_normally, handler_covers, in_handler_of, raised_class, is_subclass,
                     cls_name, fmt_witness)
 from .common import option_usage
@@ -56,11 +56,9 @@ def assign_roles(ctx, u):
     """local names of Assign.glomit by role"""
     p = ctx.program
     r = {}
+    r.update(locals_from_attrs(u, ('op', 'arg', 'path')))
     for n in u.own_nodes():
         if isinstance(n, ast.Assign):
-            b = match(n, '$op, $arg, $path = self.op, self.arg, self.path')
-            if b:
-                r.update(op=b['op'], arg=b['arg'], path=b['path'])
             if isinstance(n.value, ast.Call) and callee_qual(p, u, n.value) == 'core.arg_val' and is_name(n.targets[0]):
                 r.setdefault('val', n.targets[0].id)
     for n in ast.walk(u.node):
